@@ -1,6 +1,7 @@
 import Ntrip.Proofs.Range
 import Ntrip.Generated.Tables
 import Ntrip.Guards.Range
+import Ntrip.Proofs.F64
 /-!
 # C08 — ranges, phase ranges and range rates equal the standard's formulas
 
@@ -9,9 +10,12 @@ Exact layer (proved): the scaled integers the cells compute are exactly the stan
 markers behave as stated, MSM4 and MSM7 encodings of the same quantity agree, and the
 frequency tables are the documented bands (regenerated from the source).
 
-Float layer (partial, not proved in Lean): `RangeInMetres = float64(scaled)/2^29 * 299792.458`
-etc. are two or three IEEE-754 operations on an exactly representable integer (< 2^53); the
-harness compares them with exact rational arithmetic to within 4 ulp on every generated cell.
+Float layer: the range in metres (`float64(scaled)/2^29 * 299792.458`, MSM4 and MSM7) and the
+range rate in m/s (`float64(scaled)/10000`) are modelled in exact binary64 arithmetic (`F64`) and
+proved accurate to 2^-51 resp. 2^-53 of the value for every input; the model is compared bit for
+bit with the hardware results.  The phase range in cycles and the Doppler (two further float
+divisions by a wavelength that is itself a rounded quotient) remain PARTIAL: compared by the
+harness with exact rational arithmetic to within 8 ulp on every generated cell.
 -/
 namespace Ntrip.C08
 
@@ -167,6 +171,46 @@ theorem wavelength_shapes :
     Gen.utils_getSignalWavelengthBeidou_shape = "frequency:=getSignalFrequencyBeidou(); if frequency==0 {return 0}; return SpeedOfLightMS/frequency" := by
   repeat' constructor
   all_goals decide
+
+/-- The range in metres as the Go code computes it from an aggregate range (MSM7
+    `RangeInMetres`, MSM4 `RangeInMillis`/`RangeInMetres`), in the exact binary64 model. -/
+def rangeMetres (scaled : Nat) : F64.Val := F64.mul (F64.scale2 (F64.ofInt scaled) (-29)) F64.cLightMs
+
+/-- The range rate in m/s (`PhaseRangeRate`), in the exact binary64 model. -/
+def rateMetresPerSecond (scaled : Int) : F64.Val := F64.divConst (F64.ofInt scaled) 10000
+
+/-- The light-millisecond constant: 299792.458 in the source (tie T1) and its nearest binary64
+    in the model. -/
+theorem light_constant :
+    Gen.utils_OneLightMillisecond = 299792458 / 1000 ∧
+    F64.rhe (299792458 * 2 ^ 34) 1000 = F64.cLightMs.m ∧ F64.bitLen F64.cLightMs.m.natAbs = 53 := by
+  refine ⟨by decide +kernel, by decide +kernel, by decide +kernel⟩
+
+/-- **Range in metres, to within floating-point rounding**: for every aggregate range (any field
+    values) the computed float differs from `scaled / 2^29 × 299792.458` by at most 2^-51 of it. -/
+theorem range_metres_accurate (scaled : Nat) (h : scaled < 2 ^ 41) :
+    2 ^ 51 * (1000 * (rangeMetres scaled).scaled 63 - scaled * 299792458 * 2 ^ 34) ≤ scaled * 299792458 * 2 ^ 34 ∧
+    -((scaled : Int) * 299792458 * 2 ^ 34) ≤ 2 ^ 51 * (1000 * (rangeMetres scaled).scaled 63 - scaled * 299792458 * 2 ^ 34) :=
+  F64.range_metres_accuracy scaled h
+
+/-- Every valid MSM7/MSM4 cell is covered: its aggregate range is below 2^41. -/
+theorem range7_bound (whole frac : Nat) (delta : Int) (hw : whole ≤ 254) (hf : frac ≤ 1023)
+    (hd1 : -(2 ^ 19 : Int) < delta) (hd2 : delta < 2 ^ 19)
+    (hnn : 0 ≤ (whole * 2 ^ 29 + frac * 2 ^ 19 : Nat) + delta) :
+    aggregateRange7 whole frac delta < 2 ^ 41 := by
+  have := range7_exact whole frac delta hw hf hd1 hd2 hnn
+  have h2 : ((whole * 2 ^ 29 + frac * 2 ^ 19 : Nat) : Int) = (whole : Int) * 2 ^ 29 + (frac : Int) * 2 ^ 19 := by
+    simp only [Int.natCast_add, Int.natCast_mul, Int.natCast_pow]; rfl
+  rw [h2] at this
+  omega
+
+/-- **Range rate in m/s is correctly rounded**: at most 2^-53 of its value away from `scaled / 10^4`. -/
+theorem rate_accurate (scaled : Int) (h : scaled.natAbs < 2 ^ 53) :
+    2 ^ 53 * (10000 * (rateMetresPerSecond scaled).scaled 78 - scaled * 2 ^ 78) ≤ (scaled.natAbs : Int) * 2 ^ 78 ∧
+    -((scaled.natAbs : Int) * 2 ^ 78) ≤ 2 ^ 53 * (10000 * (rateMetresPerSecond scaled).scaled 78 - scaled * 2 ^ 78) :=
+  F64.rate_accuracy scaled h
+
+example : F64.ieee (rangeMetres (81 * 2 ^ 29 + 435 * 2 ^ 19 - 26835)) = (false, 1047, 6552651041628382) := by decide +kernel
 
 /-- Tie T1: markers and scale constants. -/
 theorem tie_constants :
